@@ -8,6 +8,7 @@ from numpy import linalg
 from scipy import special
 from numdifftools.extrapolation import convolve
 from numdifftools.multicomplex import Bicomplex
+from numdifftools import _verif
 
 _SQRT_J = (1j + 1.0) / np.sqrt(2.0)  # = 1j**0.5
 
@@ -548,10 +549,17 @@ class LogRule(object):
         step = self.richardson_step
         num_terms = (order + method_order) // step
         fd_rules = FD_RULES.get((step_ratio, parity, num_terms))
+        if _verif.ON:
+            _verif.emit('rule_get', key=(float(step_ratio), int(parity), int(num_terms)),
+                        hit=fd_rules is not None)
+            _verif.yield_point('rule_get')
         if fd_rules is None:
             fd_mat = self._fd_matrix(step_ratio, parity, num_terms)
             fd_rules = linalg.pinv(fd_mat)
             FD_RULES[(step_ratio, parity, num_terms)] = fd_rules
+            if _verif.ON:
+                _verif.emit('rule_insert', key=(float(step_ratio), int(parity), int(num_terms)))
+                _verif.yield_point('rule_insert')
 
         rule_index = order // step
         if self._flip_fd_rule:
